@@ -23,7 +23,7 @@ def main():
             print("BASELINE FAILS", p, fails); sys.exit(1)
     results = {}
     only = sys.argv[1:] 
-    for d in sorted(glob.glob("/verif/seeded/*-m*")):
+    for d in sorted(glob.glob("/verif/seeded/C*-*m[0-9]")):
         name = os.path.basename(d)
         if only and name not in only: continue
         prop = name.split("-")[0]
